@@ -1,8 +1,15 @@
 """Per-property claims rendered into MANIFEST.json by tools/mkmanifest.py."""
 HOOK_COMMITS = []   # no source hooks needed so far
-FIX_COMMITS = ["e01415d fix: optixtrans match expression (C18)", "12c75c5 fix: make_patch op order (C13)", "8c66073 fix: resolved pointers escaped (C13)", "4756b94 fix: huawei multi_all unchanged lines (C11)", "81e31d8 fix: implicit default block with its defaults (C17)", "5bfc12a fix: order_config word boundary (C08)", "943f14e fix: patch sort key (C08)", "1bcbbe1 fix: rewrite logic sends the new line ... (C01)", "28efb2a fix: file mode builds the patch from the complete diff (C16)", "c62ee59 fix: pool parent loop leaves only when the done queue is drained (C12)"]
+FIX_COMMITS = ["750ea7d fix: RouterOS join nested sections (C04)", "e01415d fix: optixtrans match expression (C18)", "12c75c5 fix: make_patch op order (C13)", "8c66073 fix: resolved pointers escaped (C13)", "4756b94 fix: huawei multi_all unchanged lines (C11)", "81e31d8 fix: implicit default block with its defaults (C17)", "5bfc12a fix: order_config word boundary (C08)", "943f14e fix: patch sort key (C08)", "1bcbbe1 fix: rewrite logic sends the new line ... (C01)", "28efb2a fix: file mode builds the patch from the complete diff (C16)", "c62ee59 fix: pool parent loop leaves only when the done queue is drained (C12)"]
 PENDING = {}
 CLAIMS = {
+    "C04": {
+        "technique": "TLC-enumerated trees + offside oracle (Formatter.tla/Offside.tla): MC of the indented rendering on the model; real join/parse of all 14 vendors judged by a TLC trace judge (identity, fixed point, independent text oracle)",
+        "text": "TLC enumerates all trees (depth<=2, width<=2, rows of 1-3 words) and checks on the model that the indented rendering parses back for units 1/2/4; every tree and seeded random trees to depth 5 are rendered "
+                "by each registered vendor's formatter and parsed back (RouterOS section trees and the Cisco address-family sub-domain included); judged: same rows, nesting and order, re-rendering is a fixed point, and for "
+                "the ten indentation vendors the spec's own offside parser on the real text gives the tree.",
+        "note": "The law is an identity between implementation outputs (stated in DESIGN.md); brace vendors (juniper, ribbon, nokia) and RouterOS have no independent text oracle. Well-formed row domain per vendor is a driver assumption.",
+    },
     "C18": {
         "technique": "TLA+ hardware database semantics (HwDb.tla: regex-chain truth, most specific vendor, registration as actions); TLC MC over all registration orders incl. a tie regression instance; exhaustive enumeration of devdb.json judged by a TLC trace judge",
         "text": "TLC explores every registration order: the implementation's choice rule is order independent exactly when the most specific match is unique. For 161 of the 168 database sequences (model string "
